@@ -245,6 +245,8 @@ class LibMixin:
     def lib_kwargs(self, v, path, node):
         if isinstance(v, sv.SPy) and v.what == "kwargs":
             return dict(v.payload)
+        if isinstance(v, sv.SDict):
+            return {"$kwargs": v}  # symbolic keyword arguments: handed to **kw parameters / contracts as one dict
         for h in self.hooks.get("kwargs", ()):
             r = h(self, v, path, node)
             if r is not None:
